@@ -448,4 +448,35 @@ func run(c *fw.Ctx) {
 	}
 	rec(0)
 	r.flush()
+	// hand-made gob messages: everything the gob fallback can be told in a few bytes (type ids, lengths, nil interface)
+	gobAlpha := []byte{0, 1, 2, 3, 4, 5, 6, 7, 8, 0x0c, 0x10, 0x20, 0x40, 0x7f, 0x80, 0xfe, 0xff}
+	if c.Thorough() {
+		gobAlpha = append(gobAlpha, 9, 0x0a, 0x0b, 0x0d, 0x0e, 0x0f, 0x11, 0x12, 0x18, 0x30, 0x41, 0x7e, 0x81, 0xf7, 0xf8)
+	}
+	c.Family("gob-suffixes", fmt.Sprintf("all byte strings of length <= 4 over %d byte values behind the gob marker 0xff: as an object and as each of the 5 fields of a version 1 and a version 2 bytecode", len(gobAlpha)))
+	gbuf := make([]byte, 0, 4)
+	var grec func(n int)
+	grec = func(n int) {
+		if c.Next() {
+			c.Nontrivial()
+			obj := append([]byte{0xff}, gbuf...)
+			r.add(tcase{fmt.Sprintf("gob|DecodeObject|%x", obj), decodeObj, obj})
+			for _, ver := range []byte{1, 2} {
+				for field := byte(1); field <= 5; field++ {
+					d := append([]byte{0x00, 0x75, 0x47, 0x4F, 0x00, ver, field}, obj...)
+					r.add(tcase{fmt.Sprintf("gob|DecodeBytecodeFrom|v%d field=%d %x", ver, field, obj), decodeBC, d})
+				}
+			}
+		}
+		if n == 4 {
+			return
+		}
+		for _, v := range gobAlpha {
+			gbuf = append(gbuf, v)
+			grec(n + 1)
+			gbuf = gbuf[:len(gbuf)-1]
+		}
+	}
+	grec(0)
+	r.flush()
 }
